@@ -34,6 +34,7 @@ type ssState struct {
 	model          *m.DB
 	path           []m.Op
 	depth          int
+	gen            bool // reached through an operation that generated random ids: backends cannot be compared on it
 }
 
 type ssWorker struct {
@@ -200,7 +201,7 @@ func StateSpace(cfg *SSConfig, run *ev.Run) {
 			if known {
 				return
 			}
-			ns := &ssState{snap: snap, twinSnap: twinSnap, model: nm, path: path, depth: len(path)}
+			ns := &ssState{snap: snap, twinSnap: twinSnap, model: nm, path: path, depth: len(path), gen: len(res.GenIDs) > 0 && res.Err == nil}
 			bf := ssBattery(cfg, run, sw, ns)
 			for _, f := range bf {
 				report(f, path, "in the state reached")
@@ -298,7 +299,7 @@ func ssBattery(cfg *SSConfig, run *ev.Run, sw *ssWorker, s *ssState) []Finding {
 		run.Add("derived_evaluations", int64(n))
 		out = append(out, fs...)
 	}
-	if sw.twin != nil && s.twinSnap != nil {
+	if sw.twin != nil && s.twinSnap != nil && !s.gen {
 		// same observable content, same order where defined, on both backends
 		for _, name := range s.model.CollNames() {
 			q := &m.Q{Coll: name}
